@@ -64,15 +64,18 @@ func (m *M) opProve(t *rapid.T) {
 	pos := rapid.IntRange(0, len(b.txids)-1).Draw(t, "pos")
 	form := rapid.SampledFrom([]string{"header", "hash", "both", "both"}).Draw(t, "form")
 	corrupt := rapid.SampledFrom([]string{"none", "none", "txid", "path", "index", "dup", "header", "hash", "swap"}).Draw(t, "corrupt")
+	// optional MerkleRoot field of the proof: absent, the proof's OWN recomputed root (self
+	// consistent even when an element was corrupted: a forged root), or the block's true root
+	rootField := rapid.SampledFrom([]string{"none", "none", "none", "own", "own", "true"}).Draw(t, "rootField")
 	for _, inst := range m.insts {
-		m.prove(t, inst, b, pos, form, corrupt)
+		m.prove(t, inst, b, pos, form, corrupt, rootField)
 	}
 }
 
 // form: "header" = proof carries the block header, "hash" = only the block hash, "both" = header
 // and hash (the form the block downloader emits); with both, the SUPPLIED HEADER is what must be
 // known to the repository, whatever the hash field names.
-func (m *M) prove(t *rapid.T, inst *Inst, b *block, pos int, form string, corrupt string) {
+func (m *M) prove(t *rapid.T, inst *Inst, b *block, pos int, form string, corrupt string, rootField string) {
 	withHeader := form != "hash"
 	path, dups := model.MerklePath(b.txids, pos)
 	txid := b.txids[pos]
@@ -163,6 +166,20 @@ func (m *M) prove(t *rapid.T, inst *Inst, b *block, pos int, form string, corrup
 	retrievable := isKnown && inst.acc[known] && (inst.held[known] || model.IsAncestorOrEqual(known, tip))
 	wantOK := isKnown && okRoot && root == headerForRoot.Merkle
 	mayEither := isKnown && !retrievable // dropped side branch: may be forgotten
+	var rootValue *bitcoin.Hash32
+	switch rootField {
+	case "own":
+		if okRoot {
+			r := bitcoin.Hash32(root)
+			rootValue = &r
+		}
+	case "true":
+		r := bitcoin.Hash32(b.raw.Merkle)
+		rootValue = &r
+		if !okRoot || root != b.raw.Merkle {
+			wantOK = false // a root field that the path does not lead to
+		}
+	}
 
 	proof := &merkle_proof.MerkleProof{Index: index, Path: make([]bitcoin.Hash32, len(path)), DuplicatedIndexes: dups}
 	tx := bitcoin.Hash32(txid)
@@ -170,6 +187,7 @@ func (m *M) prove(t *rapid.T, inst *Inst, b *block, pos int, form string, corrup
 	for i, p := range path {
 		proof.Path[i] = bitcoin.Hash32(p)
 	}
+	proof.MerkleRoot = rootValue
 	if withHeader {
 		proof.BlockHeader = toWire(&raw)
 	}
@@ -186,8 +204,11 @@ func (m *M) prove(t *rapid.T, inst *Inst, b *block, pos int, form string, corrup
 	if p := vt.Catch(func() { height, longest, err = inst.repo.VerifyMerkleProof(vt.Ctx(), proof) }); p != nil {
 		m.fail(inst, "VerifyMerkleProof panicked: %v", p)
 	}
-	desc := fmt.Sprintf("block %s (%d txs, %s) pos %d form=%s corrupt=%s %s", m.label(b.raw.Hash()), len(b.txids), b.status, pos, form, corrupt, detail)
-	m.k.Op("prove txs=%d pos=%d form=%s corrupt=%s known=%v want=%v", len(b.txids), pos, form, corrupt, isKnown, wantOK)
+	desc := fmt.Sprintf("block %s (%d txs, %s) pos %d form=%s corrupt=%s rootField=%s %s", m.label(b.raw.Hash()), len(b.txids), b.status, pos, form, corrupt, rootField, detail)
+	m.k.Op("prove txs=%d pos=%d form=%s corrupt=%s root=%s known=%v want=%v", len(b.txids), pos, form, corrupt, rootField, isKnown, wantOK)
+	if rootValue != nil && corrupt != "none" && rootField == "own" {
+		m.k.Class("self_consistent_forged_root")
+	}
 	if form == "both" && corrupt == "header" {
 		m.k.Class("altered_header_with_hash_of_known_block")
 	}
@@ -216,7 +237,7 @@ func (m *M) prove(t *rapid.T, inst *Inst, b *block, pos int, form string, corrup
 	}
 }
 
-const ruleC18 = genDesc + " plus blocks: headers whose merkle root commits to 1..33 generated txids (odd/even widths at several levels) attached anywhere (best chain, side branches, later pruned or dropped, or withheld = never submitted); proofs built by an independent merkle implementation for a drawn position, given with the header, with the block hash only, or with both (the form the block downloader emits; an altered header next to the hash of the real block must fail), valid or with ONE corrupted element (txid bit, path node, index, duplicate marker dropped/added, one header field, block hash, two path nodes swapped); oracle: VerifyMerkleProof succeeds exactly when the independently recomputed root equals the merkle root of a header the model says is known (so an index change that leaves the path parity unchanged is not a failure), and then returns the model height and ancestor-of-tip flag; non-trivial = history with a corrupted proof and a proof for a side-branch or pruned-history block; distinct = hash of the abstract operation list"
+const ruleC18 = genDesc + " plus blocks: headers whose merkle root commits to 1..33 generated txids (odd/even widths at several levels) attached anywhere (best chain, side branches, later pruned or dropped, or withheld = never submitted); proofs built by an independent merkle implementation for a drawn position, given with the header, with the block hash only, or with both, optionally with a MerkleRoot field (the true root, or the proof's own recomputed root - a self-consistent forged proof when an element was corrupted) (the form the block downloader emits; an altered header next to the hash of the real block must fail), valid or with ONE corrupted element (txid bit, path node, index, duplicate marker dropped/added, one header field, block hash, two path nodes swapped); oracle: VerifyMerkleProof succeeds exactly when the independently recomputed root equals the merkle root of a header the model says is known (so an index change that leaves the path parity unchanged is not a failure), and then returns the model height and ancestor-of-tip flag; non-trivial = history with a corrupted proof and a proof for a side-branch or pruned-history block; distinct = hash of the abstract operation list"
 
 var weightsC18 = map[string]int{"extend": 4, "late": 1, "clean": 2, "reload": 1, "block": 4, "prove": 8}
 
